@@ -370,8 +370,16 @@ void *usim_mremap(void *old, size_t oldsz, size_t newsz, int flags, ...)
 	mi = find_map((uintptr_t) old);
 	if (!mi || (uintptr_t) old != mi->addr)
 		usim_bug("mremap of an unknown mapping");
-	if (flags & MREMAP_MAYMOVE)
-		usim_bug("mremap(MREMAP_MAYMOVE) not simulated");
+	if ((flags & MREMAP_MAYMOVE) && pnew > pold) {
+		/* the kernel may move the mapping: here it always does; the old range stays unmapped for good */
+		void *n = usim_mmap(NULL, pnew, PROT_READ | PROT_WRITE, MAP_PRIVATE | MAP_ANONYMOUS, -1, 0);
+		if (n == MAP_FAILED)
+			return n;
+		memcpy(n, old, pold);
+		mmap(old, pold, PROT_NONE, MAP_PRIVATE | MAP_ANONYMOUS | MAP_FIXED | MAP_NORESERVE, -1, 0);
+		usim_probe("os.mremap_moved");
+		return n;
+	}
 	if (pnew <= pold) {
 		if (pnew < pold)
 			mmap((char *) old + pnew, pold - pnew, PROT_NONE,
